@@ -5,7 +5,9 @@ import PeptVerif.Lemmas.ParserChain
 Objects: `Pept.parse true` (the parser of the current `/repo`, Model/Parser.lean), `Pept.serialize` /
 `Pept.serializeMulti` (Model/Serialize.lean), the decidable well-formedness predicate `Pept.canon`
 (Spec/ProForma.lean: the image of the documented grammar). All statements are for every annotation, every
-sequence length, every list of modifications, both `include_plus` settings. "Equal" is structural equality of the
+sequence length, every list of modifications, and every `plus : Plus = Mod → Bool`, i.e. any choice, modification
+by modification, of writing a positive number with or without `+` (Python's `include_plus=b` is `constPlus b`; mixed
+spellings inside one string are covered as well). "Equal" is structural equality of the
 model objects, which implies the library's multiset `==`.
 
 Outside these theorems (rest on correspondence only): float values whose text is not Python's `repr`
@@ -44,7 +46,7 @@ theorem int_value_roundtrip (i : Int) : convertType (ModVal.int i).text = .int i
 
 /-- a run of modifications (`_parse_modifications`) -/
 theorem parseMods_roundtrip (o c : Char) (hoc : o ≠ c) (hpo : '+' ≠ o) (hpc : '+' ≠ c) (ho1 : o ≠ '^')
-    (ho2 : o.isDigit = false) (plus : Bool) (l : List Mod) (hl : l.all (canonMod o c) = true)
+    (ho2 : o.isDigit = false) (plus : Plus) (l : List Mod) (hl : l.all (canonMod o c) = true)
     (rest : List Char) (hrest : ModStop rest) (hro : rest.head? ≠ some o) :
     parseMods o c (serializeMods o c plus l ++ rest) = .ok (l, rest) :=
   parseMods_serialize o c hoc hpo hpc ho1 ho2 plus l hl rest hrest hro
@@ -53,7 +55,7 @@ theorem parseMods_roundtrip (o c : Char) (hoc : o ≠ c) (hpo : '+' ≠ o) (hpc 
 
 /-- `_parse_sequence_start` reads back what `_serialize_annotation_start` wrote: labile, static, isotope,
 unknown-position and N-terminal modifications, followed by anything that starts with a residue or `(`. -/
-theorem parseStart_serializeStart (plus : Bool) (a : Annotation) (hc : canon a = true) (rest : List Char)
+theorem parseStart_serializeStart (plus : Plus) (a : Annotation) (hc : canon a = true) (rest : List Char)
     (hrest : StartStop rest) :
     parseStart true { seq := [] } (serializeStart plus a ++ rest) =
       .ok ({ seq := [], labile := a.labile, static := a.static, isotope := a.isotope, unknown := a.unknown,
@@ -67,7 +69,7 @@ theorem parseStart_serializeStart (plus : Bool) (a : Annotation) (hc : canon a =
 /-- `_parse_sequence_middle` reads back what `_serialize_annotation_middle` wrote — induction over the residues with
 the interval-open/close bookkeeping, including an interval opening at residue 0 and one closing after the last
 residue, modifications on residues and on intervals. -/
-theorem parseMiddle_serializeMiddle (plus : Bool) (a acc : Annotation) (hc : canon a = true)
+theorem parseMiddle_serializeMiddle (plus : Plus) (a acc : Annotation) (hc : canon a = true)
     (h1 : acc.seq = []) (h2 : acc.internal = none) (h3 : acc.intervals = none)
     (tail : List Char) (htail : MidStop tail) :
     parseMiddle acc none (serializeMiddle plus a ++ tail) =
@@ -78,7 +80,7 @@ theorem parseMiddle_serializeMiddle (plus : Bool) (a acc : Annotation) (hc : can
 
 /-- `_parse_sequence_end` reads back charge and adducts, up to the end of the input or the `+` / `//` that starts the next
 chain (`stopConn` = the connection flag set by the joiner, `stopRest` = the input after it) -/
-theorem parseEnd_serializeEnd (plus : Bool) (a : Annotation) (ha0 : a.adducts = none) (conn : Option Bool) (ch : Int)
+theorem parseEnd_serializeEnd (plus : Plus) (a : Annotation) (ha0 : a.adducts = none) (conn : Option Bool) (ch : Int)
     (ad : Option (List Mod)) (had : canonAdducts (some ch) ad = true) (rest : List Char) (hrest : ChainStop rest) :
     parseEnd a conn ('/' :: (intText ch ++ (optMods '[' ']' plus ad ++ rest))) =
       .ok ({ a with charge := some ch, adducts := ad }, stopConn conn rest, stopRest rest) := by
@@ -88,7 +90,7 @@ theorem parseEnd_serializeEnd (plus : Bool) (a : Annotation) (ha0 : a.adducts = 
 
 /-- **Round trip, single chain.** For every canonical annotation and both `include_plus` settings the serialized text
 parses back to the same annotation. -/
-theorem parse_serialize (plus : Bool) (a : Annotation) (hc : canon a = true) :
+theorem parse_serialize (plus : Plus) (a : Annotation) (hc : canon a = true) :
     parse true (serialize plus a) = .ok (.single a) := by
   have hne : a.seq ≠ [] := by
     simp only [canon, Bool.and_eq_true, Bool.not_eq_eq_eq_not, Bool.not_true] at hc
@@ -114,21 +116,31 @@ def exampleAnnotation : Annotation :=
     adducts := some [⟨.str "+2Na+,+H+".toList, 1⟩] }
 
 example : canon exampleAnnotation = true := by decide +kernel
-example : serialize false exampleAnnotation = "[1]?[2]-(PEP)[3]^2TIDE/2[+2Na+,+H+]".toList := by decide +kernel
+example : serialize (constPlus false) exampleAnnotation = "[1]?[2]-(PEP)[3]^2TIDE/2[+2Na+,+H+]".toList := by decide +kernel
 example : canon { seq := "PEP".toList, labile := some [⟨.flt "15.995".toList, 1⟩],
                   static := some [⟨.str "[+57.02]@C".toList, 1⟩], isotope := some [⟨.str "13C".toList, 1⟩],
                   internal := some [(0, [⟨.str "Formula:[13C2]H4".toList, 2⟩]), (2, [⟨.int (-1), 1⟩])],
                   intervals := some [⟨0, 1, true, none⟩, ⟨1, 3, false, some [⟨.str "Oxidation|INFO:x".toList, 1⟩]⟩],
                   cterm := some [⟨.str "Glycan:Hex".toList, 1⟩], charge := some (-2) } = true := by decide +kernel
 
+/-- the two Python settings `include_plus ∈ {False, True}` are instances -/
+theorem parse_serialize_include_plus (b : Bool) (a : Annotation) (hc : canon a = true) :
+    parse true (serialize (constPlus b) a) = .ok (.single a) :=
+  parse_serialize (constPlus b) a hc
+
+/-- mixed spellings in one string: `+` on the first modification only -/
+def exampleMixed : Annotation := { seq := "PEP".toList, internal := some [(1, [⟨.int 5, 1⟩, ⟨.int 5, 2⟩])] }
+
+example : serialize (fun m => decide (m.mult = 1)) exampleMixed = "PE[+5][5]^2P".toList := by decide +kernel
+
 /-- **Serializing is a fixpoint after one round trip** (corollary): `serialize(parse(serialize(a))) == serialize(a)`. -/
-theorem serialize_fixpoint (plus : Bool) (a : Annotation) (hc : canon a = true) :
+theorem serialize_fixpoint (plus : Plus) (a : Annotation) (hc : canon a = true) :
     (parse true (serialize plus a)).bind (serializeParsed plus) = .ok (serialize plus a) := by
   rw [parse_serialize plus a hc]; rfl
 
 /-- **Round trip, several chains joined by `+`** (every connection `False`): the serialized text parses back to the
 same chains with the same connection flags — for any number ≥ 2 of canonical chains. -/
-theorem parse_serialize_multi_partial (plus : Bool) (as : List Annotation) (h2 : as.length ≥ 2)
+theorem parse_serialize_multi_partial (plus : Plus) (as : List Annotation) (h2 : as.length ≥ 2)
     (hc : as.all canon = true) :
     serializeMulti plus as (List.replicate (as.length - 1) (some false)) = .ok (chainsText plus as) ∧
     parse true (chainsText plus as) = .ok (.multi as (List.replicate (as.length - 1) (some false))) := by
@@ -154,7 +166,7 @@ theorem parse_serialize_multi_partial (plus : Bool) (as : List Annotation) (h2 :
 /-- **Reading side, any joiners.** For any number ≥ 2 of canonical chains and any connection flags, the text with `+` for
 `False` and `//` for `True` parses to exactly these chains and flags: the parser treats crosslinks correctly, so the
 known finding below is confined to the serializer's joiner. -/
-theorem parse_joined (plus : Bool) (as : List Annotation) (h2 : as.length ≥ 2) (hc : as.all canon = true)
+theorem parse_joined (plus : Plus) (as : List Annotation) (h2 : as.length ≥ 2) (hc : as.all canon = true)
     (flags : List Bool) (hl : flags.length + 1 = as.length) :
     parse true (joinedText plus as flags) = .ok (.multi as (flags.map some)) := by
   match as, h2 with
@@ -177,7 +189,7 @@ theorem parse_joined (plus : Bool) (as : List Annotation) (h2 : as.length ≥ 2)
         simp only
         rw [h1, h3]
 
-example : joinedText false [{ seq := "PEP".toList }, { seq := "TIDE".toList, charge := some 2 }, { seq := "K".toList }]
+example : joinedText (constPlus false) [{ seq := "PEP".toList }, { seq := "TIDE".toList, charge := some 2 }, { seq := "K".toList }]
     [true, false] = "PEP//TIDE/2+K".toList := by decide +kernel
 
 /-- The full statement (any connection flags) is FALSE for the current code: `MultiProFormaAnnotation.serialize` writes a
@@ -186,7 +198,7 @@ tests/test_proforma.py::test_multi_annotation_crosslink and a doctest). Witness 
 theorem parse_serialize_crosslink_false :
     parse true "PEPTIDE//PEPTIDE".toList =
       .ok (.multi [{ seq := "PEPTIDE".toList }, { seq := "PEPTIDE".toList }] [some true]) ∧
-    serializeMulti false [{ seq := "PEPTIDE".toList }, { seq := "PEPTIDE".toList }] [some true] =
+    serializeMulti (constPlus false) [{ seq := "PEPTIDE".toList }, { seq := "PEPTIDE".toList }] [some true] =
       .ok "PEPTIDE\\\\PEPTIDE".toList ∧
     parse true "PEPTIDE\\\\PEPTIDE".toList = .error .format := by decide +kernel
 
